@@ -36,7 +36,8 @@ ID = 'C15'
 LEVEL = 'exploration'
 RULE = ('bounded-exhaustive block: every (rows, cols) in 2..40 x 2..40 with every factor 1..12 and the factors 41, 64 '
         '(factor > size), in memory, one in 9 also through files; seeded random shapes to 400 with factors to 64 '
-        '(file and HDUList input, float32/float64, 3-D/4-D degenerate axes, fully random and bilinear images); headers '
+        '(file and HDUList input, float32/float64 and integer pixel types int16/int32 (a third of the block; exactly linear '
+        'integer images from node values that are multiples of factor**2), 3-D/4-D degenerate axes, fully random and bilinear images); headers '
         'rotate through SIN/TAN/ZEA/ARC/STG, CDELT and CD form (CD: rotation-free, rotated by any angle, slightly rotated '
         'and skewed, i.e. non-zero CD1_2/CD2_1), both signs, non-integer and off-image CRPIX; compressed '
         'aux files through load_image_band, SourceFinder._load_aux_image and load_globals; thorough adds the SR6 CLI '
@@ -52,12 +53,14 @@ MIN_REACH = {'fits_tools:compress': 1, 'fits_tools:expand': 1, 'fits_tools:load_
              'source_finder:SourceFinder._load_aux_image': 1}
 MIN_COUNTERS = {
     'quick': {'roundtrips': 15000, 'roundtrips_file': 1000, 'nodes_checked': 100000, 'linear_cells_judged': 5000,
-              'residual_rows_and_cols': 3000, 'factor_gt_size': 500, 'aux_loads': 100, 'cd_headers': 3000, 'cd_rotated': 1500, 'cd_skewed': 1500,
+              'residual_rows_and_cols': 3000, 'factor_gt_size': 500, 'aux_loads': 100, 'integer_pixel_roundtrips': 5000, 'integer_pixel_roundtrips_file': 300,
+              'integer_linear_images_factor_not_power_of_2': 1500, 'cd_headers': 3000, 'cd_rotated': 1500, 'cd_skewed': 1500,
               'offdiagonal_cd_terms_compared': 5000,
               'noninteger_crpix': 3000, 'negative_cdelt2': 1000},
     'thorough': {'roundtrips': 40000, 'roundtrips_file': 4000, 'nodes_checked': 1000000,
                  'linear_cells_judged': 20000, 'residual_rows_and_cols': 10000, 'factor_gt_size': 2000,
-                 'aux_loads': 400, 'cd_headers': 8000, 'cd_rotated': 4000, 'cd_skewed': 4000,
+                 'aux_loads': 400, 'integer_pixel_roundtrips': 15000, 'integer_pixel_roundtrips_file': 2000,
+                 'integer_linear_images_factor_not_power_of_2': 5000, 'cd_headers': 8000, 'cd_rotated': 4000, 'cd_skewed': 4000,
                  'offdiagonal_cd_terms_compared': 15000, 'noninteger_crpix': 8000, 'negative_cdelt2': 3000,
                  'sr6_runs': 100, 'bane_compressed_runs': 4},
 }
@@ -118,6 +121,8 @@ def header_for(idx, rows, cols, rng, allow_rot=True):
 
 def make_image(rows, cols, f, rng, linear=True, dtype=np.float32):
     """random image; bilinear between random nodes on the complete cells.  Returns img, (K, L)"""
+    if np.issubdtype(np.dtype(dtype), np.integer):
+        return make_int_image(rows, cols, f, rng, linear, dtype)
     amp = 10 ** rng.uniform(-3, 3)
     off = rng.choice([0.0, 3.0, -5.0, 100.0]) * amp          # 3 in 4 images do not contain the value 0 in their range
     img = (rng.uniform(-1, 1, (rows, cols)) * amp + off).astype(np.float32)
@@ -139,6 +144,42 @@ def make_image(rows, cols, f, rng, linear=True, dtype=np.float32):
                                        + t * u * n11).astype(np.float32)
     else:
         K = L = 0
+    return img.astype(dtype), (K, L)
+
+
+INT_MAXABS = {'int16': 30000, 'int32': 500000}     # 4 float32 ulp of the node range stay below 0.25 of a count
+
+
+def make_int_image(rows, cols, f, rng, linear, dtype):
+    """integer pixel type (BITPIX 16/32, no BSCALE/BZERO).  The node values are multiples of f*f, so the bilinear
+    image between them is integer-valued everywhere: an exactly linear image that an integer array can hold.
+    Everything is computed in integer arithmetic; all values stay below 2**24 (exact in float32)."""
+    name = np.dtype(dtype).name
+    mmax = INT_MAXABS[name] // (f * f)
+    K = (rows - 1) // f
+    L = (cols - 1) // f
+    if mmax < 2:
+        linear = False
+        mmax = INT_MAXABS[name]
+        unit = 1
+    else:
+        unit = f * f
+    lo, hi = [(-mmax, mmax), (mmax // 3 + 1, mmax), (-mmax, -(mmax // 3) - 1), (mmax // 2, mmax)][int(rng.integers(0, 4))]
+    img = rng.integers(lo, hi + 1, (rows, cols)).astype(np.int64) * unit
+    if linear and K >= 1 and L >= 1:
+        m = rng.integers(lo, hi + 1, (K + 1, L + 1)).astype(np.int64)
+        i = np.arange(K * f + 1)
+        j = np.arange(L * f + 1)
+        k = np.minimum(i // f, K - 1)
+        l_ = np.minimum(j // f, L - 1)
+        a = (i - k * f)[:, None]
+        b = (j - l_ * f)[None, :]
+        img[:K * f + 1, :L * f + 1] = ((f - a) * (f - b) * m[np.ix_(k, l_)] + a * (f - b) * m[np.ix_(k + 1, l_)]
+                                       + (f - a) * b * m[np.ix_(k, l_ + 1)] + a * b * m[np.ix_(k + 1, l_ + 1)])
+    else:
+        K = L = 0
+    if np.abs(img).max() > np.iinfo(dtype).max or np.abs(img).max() >= 2 ** 24:
+        raise RuntimeError('harness: integer test image out of range')
     return img.astype(dtype), (K, L)
 
 
@@ -422,6 +463,12 @@ def roundtrip(ft, fits, o, rng, rows, cols, f, idx, mode, tmp, linear=True, dtyp
             o.count('negative_cdelt2')
         if extra_axes:
             o.count('degenerate_axes')
+        if np.issubdtype(np.dtype(dtype), np.integer):
+            o.count('integer_pixel_roundtrips')
+            o.count('integer_pixel_roundtrips_' + mode)
+            if KL[0] >= 1 and KL[1] >= 1 and f & (f - 1):
+                o.count('integer_linear_images_factor_not_power_of_2')
+            o.see('integer_pixel_type', np.dtype(dtype).name)
         if np.dtype(dtype) == np.float64:
             o.count('float64_input')
         o.see('projection', hinfo['proj'])
@@ -675,9 +722,11 @@ def run(case):
             for cols in range(case['cols'][0], case['cols'][1] + 1):
                 for f in case['factors']:
                     idx += 1
-                    roundtrip(ft, fits, o, rng, rows, cols, f, idx, 'mem', tmp)
+                    dt = {1: np.int16, 4: np.int32}.get(idx % 6, np.float32)     # a third with integer pixels
+                    roundtrip(ft, fits, o, rng, rows, cols, f, idx, 'mem', tmp, dtype=dt)
                     if idx % 9 == 0:
-                        roundtrip(ft, fits, o, rng, rows, cols, f, idx + 3, 'file', tmp)
+                        dt = {0: np.int16, 1: np.int32}.get((idx // 9) % 4, np.float32)
+                        roundtrip(ft, fits, o, rng, rows, cols, f, idx + 3, 'file', tmp, dtype=dt)
             o.sample = {'rows': rows, 'cols': case['cols'], 'factors': case['factors'],
                         'roundtrips': o.counters.get('roundtrips')}
         elif kind == 'random':
@@ -695,7 +744,7 @@ def run(case):
                                                        cols // 3 + 1, (rows - 1) // 2 or 1]))))
                 mode = 'file' if rng.random() < 0.3 else 'mem'
                 linear = rng.random() < 0.6
-                dtype = np.float64 if rng.random() < 0.2 else np.float32
+                dtype = [np.float32, np.float64, np.int16, np.int32][int(rng.choice(4, p=[0.5, 0.2, 0.15, 0.15]))]
                 extra = int(rng.choice([0, 0, 0, 1, 2]))
                 roundtrip(ft, fits, o, rng, rows, cols, f, int(rng.integers(0, 10000)), mode, tmp,
                           linear=linear, dtype=dtype, extra_axes=extra)
